@@ -150,8 +150,12 @@ def run_units(modname, units, timeout=600, procs=None, seed=0):
         # one fresh (forked) process per unit: state leaking between units (a module-level cache in the code under test,
         # or in the harness) cannot make a result depend on which units a worker happened to run before
         with ctx.Pool(min(procs, len(jobs)), maxtasksperchild=1) as pool:
+            early = os.environ.get("VERIF_FIRST_VIOLATION") == "1"   # screening mode (mutation runs): stop at the first violation
             for r in pool.imap_unordered(_worker, jobs, chunksize=1):
                 results.append(r)
+                if early and r["violations"]:
+                    pool.terminate()
+                    break
     results.sort(key=lambda r: r["idx"])
     m = Merged()
     for r in results:
